@@ -136,11 +136,9 @@ func (ts *tokens) domainText(src []byte, domain string, a, b, depth int) {
 		return
 	}
 	if bytes.HasPrefix(src[a:b], []byte("> ")) {
-		e := bytes.IndexByte(src[a:b], '\n')
-		if e < 0 {
-			e = b - a
-		}
-		ts.addTokens(src, a+2, a+e, depth+1)
+		// the arguments end at the first statement end, which may be lines below (a func literal
+		// argument); scanning is sequential, so the text behind them only adds unused offsets
+		ts.addTokens(src, a+2, b, depth+1)
 	}
 }
 
@@ -157,6 +155,8 @@ type checker struct {
 	in     *info
 	badEnd map[goast.Node]bool
 	badPos map[goast.Node]bool
+	badRe  map[goast.Node]bool // re-parse failed here: enclosing expressions are not re-parsed
+	broken map[goast.Node]bool // nodes of a domain text argument list with a dropped syntax error
 }
 
 // synthetic reports nodes that do not stand for source text of their own.
@@ -227,7 +227,7 @@ func clamp(x, lo, hi int) int {
 
 // understood root causes rank last so that they never hide anything else.
 var understood = map[string]int{"end:EnvExpr": 5, "end:LambdaExpr": 6, "end:CallExpr-command": 7, "span:IndexExpr-no-brackets": 8,
-	"end:BasicLit-cstring": 9, "child-outside:ValueSpec.Tag": 10, "end:File-shadow-entry": 11}
+	"end:BasicLit-cstring": 9, "child-outside:ValueSpec.Tag": 10, "end:File-shadow-entry": 11, "end:raw-string-cr": 12, "domaintext-args-error-dropped": 13}
 
 type verdicts struct{ best *vk.Verdict }
 
@@ -264,7 +264,7 @@ func (c *checker) visit(n, parent goast.Node, field string, inSynthetic bool) {
 	c.in.checked++
 
 	if ix, isIx := n.(*ast.IndexExpr); isIx && !ix.Lbrack.IsValid() && !ix.Rbrack.IsValid() {
-		c.vs.add(vk.Bad("span:IndexExpr-no-brackets", "IndexExpr without Lbrack/Rbrack: Pos=%d End=%d, its operands are %s and %s", s.pos, s.end, c.whereOf(ix.X), c.whereOf(ix.Index)))
+		c.report(n, vk.Bad("span:IndexExpr-no-brackets", "IndexExpr without Lbrack/Rbrack: Pos=%d End=%d, its operands are %s and %s", s.pos, s.end, c.whereOf(ix.X), c.whereOf(ix.Index)))
 		c.badEnd[n], c.badPos[n] = true, true
 		return
 	}
@@ -275,7 +275,7 @@ func (c *checker) visit(n, parent goast.Node, field string, inSynthetic bool) {
 		posOK = false
 		c.badPos[n] = true
 		if !c.inherited(kids, s.pos, true) {
-			c.vs.add(vk.Bad("pos:"+kind, "Pos of %s is not the start of a token", c.where(n, s)))
+			c.report(n, vk.Bad("pos:"+kind, "Pos of %s is not the start of a token", c.where(n, s)))
 		}
 	}
 	if !c.ts.ends[s.end] {
@@ -289,11 +289,14 @@ func (c *checker) visit(n, parent goast.Node, field string, inSynthetic bool) {
 			if lit, ok := n.(*ast.BasicLit); ok && (lit.Kind == token.CSTRING || lit.Kind == token.PYSTRING) {
 				cls = "end:BasicLit-cstring"
 			}
-			c.vs.add(vk.Bad(cls, "End of %s is not just after a token (next bytes %q)", c.where(n, s), c.text(span{s.end, s.end + 12})))
+			if c.rawWithCR(n) {
+				cls = "end:raw-string-cr"
+			}
+			c.report(n, vk.Bad(cls, "End of %s is not just after a token (next bytes %q)", c.where(n, s), c.text(span{s.end, s.end + 12})))
 		}
 	}
 	if posOK && endOK && s.pos >= s.end {
-		c.vs.add(vk.Bad("empty-span:"+kind, "%s: Pos >= End", c.where(n, s)))
+		c.report(n, vk.Bad("empty-span:"+kind, "%s: Pos >= End", c.where(n, s)))
 		return
 	}
 
@@ -309,13 +312,13 @@ func (c *checker) visit(n, parent goast.Node, field string, inSynthetic bool) {
 			continue
 		}
 		if posOK && endOK && (ks.pos < s.pos || ks.end > s.end) && !c.badPos[k.Node] && !c.badEnd[k.Node] {
-			c.vs.add(vk.Bad("child-outside:"+kind+"."+k.Field, "child %s lies outside its parent %s", c.where(k.Node, ks), c.where(n, s)))
+			c.report(n, vk.Bad("child-outside:"+kind+"."+k.Field, "child %s lies outside its parent %s", c.where(k.Node, ks), c.where(n, s)))
 		}
 		if _, isFD := n.(*ast.FuncDecl); isFD && k.Field == "Type" {
 			continue // go/ast convention: FuncType.Pos is the func keyword, so it spans receiver and name
 		}
 		if !c.badPos[k.Node] && ks.pos < last {
-			c.vs.add(vk.Bad("children-overlap:"+kind, "in %s child %s starts before the end (%d) of the preceding child %s", c.where(n, s), c.where(k.Node, ks), last, lastDesc))
+			c.report(n, vk.Bad("children-overlap:"+kind, "in %s child %s starts before the end (%d) of the preceding child %s", c.where(n, s), c.where(k.Node, ks), last, lastDesc))
 		}
 		if !c.badEnd[k.Node] && ks.end > last {
 			last, lastDesc = ks.end, k.Field
@@ -329,6 +332,72 @@ func (c *checker) visit(n, parent goast.Node, field string, inSynthetic bool) {
 	if x, isExpr := n.(ast.Expr); isExpr && posOK && endOK && reparsable(x, parent, field) && !c.hasBadDescendant(n) {
 		c.reparse(x, s)
 	}
+}
+
+// rawWithCR reports whether n is a raw string (or domain text) literal whose source text holds
+// carriage returns: the scanner drops them from the literal value (Go spec), and End() is
+// computed from the value.
+func (c *checker) rawWithCR(n goast.Node) bool {
+	var vp gotoken.Pos
+	switch x := n.(type) {
+	case *ast.BasicLit:
+		if x.Kind != token.STRING || len(x.Value) == 0 || x.Value[0] != '`' {
+			return false
+		}
+		vp = x.ValuePos
+	case *ast.DomainTextLit:
+		vp = x.ValuePos
+	default:
+		return false
+	}
+	a := int(vp) - c.base
+	if a < 0 || a >= len(c.src) || c.src[a] != '`' {
+		return false
+	}
+	j := bytes.IndexByte(c.src[a+1:], '`')
+	return j >= 0 && bytes.IndexByte(c.src[a+1:a+1+j], '\r') >= 0
+}
+
+// report records a verdict for node n. Inside the argument list of a domain text literal whose
+// syntax errors the parser dropped, every consequence is one root cause.
+func (c *checker) report(n goast.Node, v *vk.Verdict) {
+	if c.broken[n] {
+		v = vk.Bad("domaintext-args-error-dropped", "the argument list of a domain text literal has a syntax error that the parser does not report; consequence: %s: %s", v.Class, v.Detail)
+	}
+	c.vs.add(v)
+}
+
+// markBrokenArgs finds tag`> args …` literals whose argument text is not syntactically valid on
+// its own although the file parsed without error (domainTextLitEx parses the arguments with a
+// sub-parser and drops its errors). The test is independent of the tree: the text between "> "
+// and the start of the raw part is parsed as the arguments of a command-style call.
+func (c *checker) markBrokenArgs(f *ast.File) {
+	astx.Walk(f, astx.Options{}, func(n, _ goast.Node, _ string) bool {
+		d, ok := n.(*ast.DomainTextLit)
+		if !ok {
+			return true
+		}
+		ex, ok := d.Extra.(*ast.DomainTextLitEx)
+		if !ok || ex == nil {
+			return true
+		}
+		a, b := int(d.ValuePos)-c.base+3, int(ex.RawPos)-c.base
+		if a < 0 || b > len(c.src) || a > b {
+			return true
+		}
+		text := "_ " + string(c.src[a:b]) + "\n"
+		_, err := parser.ParseFile(gotoken.NewFileSet(), "args.xgo", text, 0)
+		if err != nil {
+			for _, arg := range ex.Args {
+				astx.Walk(arg, astx.Options{}, func(x, _ goast.Node, _ string) bool {
+					c.broken[x] = true
+					return true
+				})
+			}
+			c.broken[d] = true
+		}
+		return true
+	})
 }
 
 func (c *checker) whereOf(n goast.Node) string {
@@ -357,7 +426,7 @@ func (c *checker) inherited(kids []astx.Child, off int, isPos bool) bool {
 func (c *checker) hasBadDescendant(n goast.Node) bool {
 	bad := false
 	astx.Walk(n, astx.Options{}, func(x, _ goast.Node, _ string) bool {
-		if bad || c.badPos[x] || c.badEnd[x] {
+		if bad || c.badPos[x] || c.badEnd[x] || c.badRe[x] {
 			bad = true
 			return false
 		}
@@ -369,15 +438,11 @@ func (c *checker) hasBadDescendant(n goast.Node) bool {
 // reparsable selects the expressions that stand on their own as a value or type expression.
 func reparsable(x ast.Expr, parent goast.Node, field string) bool {
 	switch v := x.(type) {
-	case *ast.KeyValueExpr, *ast.Ellipsis, *ast.ForPhrase, *ast.ElemEllipsis, *ast.RangeExpr, *ast.MatrixLit, *ast.BadExpr:
+	case *ast.KeyValueExpr, *ast.Ellipsis, *ast.ForPhrase, *ast.ElemEllipsis, *ast.BadExpr:
 		return false
 	case *ast.ArrayType:
 		if _, ok := v.Len.(*ast.Ellipsis); ok {
 			return false // raw [...]T: only valid in front of a composite literal
-		}
-	case *ast.CallExpr:
-		if v.IsCommand() {
-			return false // command style is statement syntax
 		}
 	case *ast.Ident:
 		if !token.IsIdentifier(v.Name) && !token.IsKeyword(v.Name) {
@@ -412,22 +477,69 @@ func (c *checker) reparse(x ast.Expr, s span) {
 	y, err := func() (y ast.Expr, err error) {
 		defer func() {
 			if p := recover(); p != nil {
-				err = fmt.Errorf("ParseExpr panics: %v", p)
+				err = fmt.Errorf("the parser panics: %v", p)
 			}
 		}()
-		return parser.ParseExpr(text)
+		return parseInContext(x, text)
 	}()
+	if err != nil {
+		c.badRe[x] = true
+	}
 	if env, ok := x.(*ast.EnvExpr); ok && err != nil && env.HasBrace() && s.end < len(c.src) && c.src[s.end] == '}' {
-		c.vs.add(vk.Bad("end:EnvExpr", "End of %s is the position of its closing brace, not the position after it (re-parsing the slice fails: %v)", c.where(x, s), firstLine(err.Error())))
+		c.report(x, vk.Bad("end:EnvExpr", "End of %s is the position of its closing brace, not the position after it (re-parsing the slice fails: %v)", c.where(x, s), firstLine(err.Error())))
 		return
 	}
 	if err != nil {
-		c.vs.add(vk.Bad("reparse-error:"+kind, "%s: ParseExpr of its own source slice fails: %v", c.where(x, s), firstLine(err.Error())))
+		c.report(x, vk.Bad("reparse-error:"+kind, "%s: ParseExpr of its own source slice fails: %v", c.where(x, s), firstLine(err.Error())))
 		return
 	}
 	if d := astx.EqualModuloPos(x, y); d != "" {
-		c.vs.add(vk.Bad("reparse-differs:"+kind, "%s: re-parsing its source slice gives a different tree at %s", c.where(x, s), d))
+		c.badRe[x] = true
+		c.report(x, vk.Bad("reparse-differs:"+kind, "%s: re-parsing its source slice gives a different tree at %s", c.where(x, s), d))
 	}
+}
+
+// parseInContext parses the source text of an expression on its own: ParseExpr for what is an
+// expression anywhere; the three expression kinds that only exist in a context are parsed in the
+// smallest such context (a range expression as the container of a for-phrase, a matrix literal
+// as a call argument, a command-style call as a statement).
+func parseInContext(x ast.Expr, text string) (ast.Expr, error) {
+	switch v := x.(type) {
+	case *ast.RangeExpr:
+		y, err := parser.ParseExpr("[_ for _ <- " + text + "]")
+		if err != nil {
+			return nil, err
+		}
+		if ce, ok := y.(*ast.ComprehensionExpr); ok && len(ce.Fors) == 1 {
+			return ce.Fors[0].X, nil
+		}
+		return y, nil
+	case *ast.MatrixLit:
+		y, err := parser.ParseExpr("_(" + text + ")")
+		if err != nil {
+			return nil, err
+		}
+		if call, ok := y.(*ast.CallExpr); ok && len(call.Args) == 1 {
+			return call.Args[0], nil
+		}
+		return y, nil
+	case *ast.CallExpr:
+		if v.IsCommand() {
+			f, err := parser.ParseFile(gotoken.NewFileSet(), "stmt.xgo", "func _() {\n"+text+"\n}\n", 0)
+			if err != nil {
+				return nil, err
+			}
+			if len(f.Decls) == 1 {
+				if fd, ok := f.Decls[0].(*ast.FuncDecl); ok && fd.Body != nil && len(fd.Body.List) == 1 {
+					if es, ok := fd.Body.List[0].(*ast.ExprStmt); ok {
+						return es.X, nil
+					}
+				}
+			}
+			return nil, fmt.Errorf("the text of a command-style call does not parse as one expression statement")
+		}
+	}
+	return parser.ParseExpr(text)
 }
 
 func firstLine(s string) string {
@@ -455,8 +567,9 @@ func spans(c Case) (*vk.Verdict, info) {
 	fset.Iterate(func(x *gotoken.File) bool { tf = x; return false })
 	ck := &checker{src: c.Src, base: tf.Base(), size: tf.Size(), in: &in,
 		ts:     tokens{starts: map[int]bool{}, ends: map[int]bool{}},
-		badEnd: map[goast.Node]bool{}, badPos: map[goast.Node]bool{}}
+		badEnd: map[goast.Node]bool{}, badPos: map[goast.Node]bool{}, badRe: map[goast.Node]bool{}, broken: map[goast.Node]bool{}}
 	ck.ts.addTokens(c.Src, 0, len(c.Src), 0)
+	ck.markBrokenArgs(f)
 	ck.file(f)
 	return ck.vs.best, in
 }
@@ -555,14 +668,14 @@ var names = []string{"a.xgo", "a.xgo", "a.xgo", "a.gop", "A.gox", "A_spx.gox", "
 
 func TestCorpusMutants(t *testing.T) {
 	g := lex.CorpusMutant(append(append([]string{}, lex.XGoExts...), ".go")...)
-	vk.R.Rapid(t, 1, 6000, 150000, func(t *rapid.T) {
+	vk.R.Rapid(t, 1, 10000, 200000, func(t *rapid.T) {
 		src := g.Draw(t, "src")
 		run(t, Case{Name: rapid.SampledFrom(names).Draw(t, "name"), Src: src}, "src=corpus-mutant")
 	})
 }
 
 func TestGeneratedXGo(t *testing.T) {
-	vk.R.Rapid(t, 2, 4000, 100000, func(t *rapid.T) {
+	vk.R.Rapid(t, 2, 8000, 160000, func(t *rapid.T) {
 		name := rapid.SampledFrom([]string{"a.xgo", "a.xgo", "A.gox", "main.spx"}).Draw(t, "name")
 		src := xgotext.File(!strings.HasSuffix(name, ".xgo")).Draw(t, "src")
 		run(t, Case{Name: name, Src: vk.Bytes(src)}, "src=generated-xgo")
